@@ -47,8 +47,8 @@ def c17_obligations(tier, seed):
     for n in pfulls:
         obs.append(kani_ob("C17.prefix_full_%d" % n, "is_prefix_of <=> bit-string prefix",
                            "c17::c17_prefix_full_%d" % n, C17_FUNCS_PREFIX,
-                           "both labels: all bytes symbolic, lengths 0..=%d symbolic; unwind %d" % (n, n + 2),
-                           cap=(900, 2400), args=NOREACH))
+                           "both labels: all bytes symbolic, lengths 0..=%d symbolic; unwind %d, memcmp 34" % (n, n + 2),
+                           cap=(900, 2400)))
     for n in lfulls:
         for cfg in ("exp", "wa"):
             obs.append(kani_ob("C17.lcp_full_%d_%s" % (n, cfg),
@@ -57,6 +57,31 @@ def c17_obligations(tier, seed):
                                "both labels: all bytes symbolic, lengths 0..=%d symbolic; unwind %d, memcmp 34" % (n, n + 2),
                                inst={"exp": "ExperimentalConfiguration<ExampleLabel>", "wa": "WhatsAppV1Configuration"}[cfg],
                                cap=(900, 3000)))
+    pairs = [("33_40_wa", 33, 40), ("48_48_wa", 48, 48), ("64_65_exp", 64, 65)]
+    if tier == "thorough":
+        pairs += [("40_33_exp", 40, 33), ("71_72_wa", 71, 72), ("128_130_wa", 128, 130), ("255_256_wa", 255, 256), ("256_256_exp", 256, 256)]
+    for nm, a, b in pairs:
+        obs.append(kani_ob("C17.pair_" + nm, "is_prefix_of and get_longest_common_prefix agree with the bit-string meaning for labels of the concrete lengths (%d, %d)" % (a, b),
+                           "c17::c17_pair_" + nm, C17_FUNCS_PREFIX + C17_FUNCS_LCP, "all 64 bytes of the two labels symbolic, lengths %d and %d concrete; unwind 258" % (a, b),
+                           cap=(1200, 3000), inst="WhatsAppV1Configuration" if nm.endswith("wa") else "ExperimentalConfiguration<ExampleLabel>"))
+    # set operations of the akd crate (through the hooks)
+    AZ = "akd/src/append_only_zks.rs"
+    setf = [AZ + "::from", AZ + "::partition", AZ + "::get_longest_common_prefix#0", AZ + "::contains_prefix", NL + "::get_prefix_ordering", NL + "::is_prefix_of"]
+    sets = [("from_sorted_and_order_independent", "AzksElementSet::from turns any ordering of an equal-length set into the same sorted sequence (no element lost or invented); mixed lengths stay unsorted",
+             "3 elements of 8-bit labels, all byte values; unwind 8"),
+            ("partition_sorted_p0", "partition of the sorted representation around a common prefix = the bit-string split on the next bit, nothing dropped", "3 elements, 8-bit labels, prefix length 0"),
+            ("partition_sorted_p3", "partition of the sorted representation around a common prefix = the bit-string split on the next bit, nothing dropped", "3 elements, 8-bit labels, prefix length 3"),
+            ("partition_sorted_p7", "partition of the sorted representation around a common prefix = the bit-string split on the next bit, nothing dropped", "3 elements, 8-bit labels, prefix length 7"),
+            ("partition_prefix_equal_to_element", "both representations drop an element whose label equals the prefix label", "1 element"),
+            ("lcp_wa", "common prefix of a set: sorted = unsorted = canonical prefix of the common leading bits", "3 elements, 8-bit labels, WhatsAppV1Configuration"),
+            ("lcp_exp", "common prefix of a set: sorted = unsorted = canonical prefix of the common leading bits", "3 elements, 8-bit labels, ExperimentalConfiguration"),
+            ("contains_q0", "contains_prefix: binary search = linear scan = 'some element starts with the query'", "3 elements, query length 0"),
+            ("contains_q3", "contains_prefix: binary search = linear scan = 'some element starts with the query'", "3 elements, query length 3"),
+            ("contains_q8", "contains_prefix: binary search = linear scan = 'some element starts with the query'", "3 elements, query length 8")]
+    if tier == "quick":
+        sets = [x for x in sets if x[0] not in ("partition_sorted_p0", "lcp_exp", "contains_q0")]
+    for nm, claim, bound in sets:
+        obs.append(kani_ob("C17.set_" + nm, claim, "c17s::c17s_" + nm, setf, bound, cap=(900, 1800), crate="kani_akd", role="set_ops"))
     return obs
 
 
@@ -156,8 +181,16 @@ def c11_obligations(tier, seed):
                "for epoch E+1 by the documented shift; a node created in E+1 is NotFound at E; a reader at E+1 sees the new node",
                "c11::c11_partial_write_keeps_previous_epoch", [TN + "::determine_node_to_get"],
                "any stored record whose latest node is not newer than E (all fields symbolic), any new content; unwind 34",
-               assumes=["the write side is a restatement (kani_akd::c11::shift) of TreeNode::write_to_storage's record shift, "
-                        "because the real writer is async storage code"]),
+               assumes=["the write side is a restatement (kani_akd::c11::shift) of TreeNode::write_to_storage's record shift, because Kani cannot execute the async writer; "
+                        "that the real writer performs exactly this shift is decided on its MIR by obligation C11.writer_shift"]),
+        {"id": "C11.writer_shift", "engine": "mir", "kind": "writer",
+         "claim": "the record TreeNode::write_to_storage writes for a node is {label: self.label, latest_node: self.clone(), previous_node: the node as of last_epoch-1 "
+                  "(looked up exactly when the node is not new, at exactly that epoch; None if new or NotFound)}; any other lookup error is returned without writing; no arithmetic panic",
+         "functions": [TN + "::write_to_storage#1"], "width": 64,
+         "bound": "all 64-bit last_epoch, is_new, every outcome of the awaited lookup (Ok / NotFound / other error) and of the awaited storage write; the coroutine's MIR is walked from its initial state "
+                  "with every await completing (the function has no loop)",
+         "query_cap_s": 120, "cap_s": (600, 600), "stubs": [], "role": "writer_shift", "instantiation": None,
+         "assumes": ["awaited futures are opaque: get_appropriate_tree_node_from_storage returns an arbitrary Result, the final storage write an arbitrary Result (their own behaviour is C13's kernel / outside the claim)"]},
         akd_ob("C11.epoch_record_last", "DbRecord::transaction_priority orders the epoch (Azks) record strictly after tree-node and value-state records",
                "c11::c11_epoch_record_written_last", [TY + "::transaction_priority"], "all record contents symbolic", stubs=()),
     ]
@@ -331,10 +364,49 @@ def c08_obligations(tier, seed):
     return obs
 
 
+# ------------------------------------------------------------------------------------------------
+# C19 (struct-level protobuf conversions)
+PR = "akd_core/src/proto/mod.rs"
+
+
+def c19_obligations(tier, seed):
+    f = [PR + "::encode_minimum_label", PR + "::decode_minimized_label", "akd_core/src/hash/mod.rs::try_parse_digest", PR + "::from", PR + "::try_from"]
+    obs = []
+
+    def add(h, claim, bound, role, cap=(900, 1800)):
+        obs.append(kani_ob("C19." + h, claim, "c19::c19_" + h, f, bound + "; unwind 34-36", cap=cap, role=role, args=NOREACH + ("--cbmc-args", "--unwindset", "memcmp.0:34")))
+    add("label_roundtrip", "NodeLabel -> message -> NodeLabel is the identity and the encoded value is minimal (no trailing zero byte)",
+        "all 32-byte values, all lengths 0..=256", "roundtrip")
+    lens = [0, 31, 32, 33] if tier == "quick" else [0, 1, 31, 32, 33, 34]
+    for n in lens:
+        add("label_decode_len%d" % n, "a NodeLabel message with arbitrary content never panics the decoder, is rejected exactly when a field is missing, the value is longer than 32 bytes or the "
+            "length exceeds 256, and an accepted one decodes to the zero-padded value and survives re-encoding", "value of %d symbolic bytes, label_len any u32, both fields present or absent" % n, "decode_any")
+    for n in ([31, 32, 33] if tier == "quick" else [0, 31, 32, 33]):
+        add("elem_decode_len%d" % n, "an AzksElement message is rejected exactly when the label or the value is missing or the digest is not 32 bytes; no panic",
+            "digest of %d symbolic bytes, any label, fields present or absent" % n, "decode_any")
+    for n in (0, 1, 2):
+        add("sibling_decode_n%d" % n, "a SiblingProof message is accepted exactly when label and direction are present, at least one sibling is given and (direction & 0xF) is 0 or 1; the first sibling is used",
+            "%d siblings, direction any u32" % n, "decode_any")
+    for n in (0, 1, 2):
+        add("membership_roundtrip_n%d" % n, "MembershipProof -> message -> MembershipProof is the identity", "%d sibling proofs, everything else symbolic" % n, "roundtrip")
+    for n in ([2, 3] if tier == "quick" else [0, 1, 2, 3]):
+        add("nonmembership_children%d" % n, "a NonMembershipProof message round-trips with exactly 2 children and is rejected with any other number", "%d children" % n, "decode_any", cap=(1200, 2400))
+    add("update_roundtrip_with_prev", "UpdateProof -> message -> UpdateProof is the identity (previous-version proof present)", "1-2 byte strings, 0-1 sibling proofs", "roundtrip")
+    add("update_roundtrip_without_prev", "UpdateProof -> message -> UpdateProof is the identity (previous-version proof absent)", "1-2 byte strings, 1 sibling proof", "roundtrip")
+    add("lookup_roundtrip", "LookupProof -> message -> LookupProof is the identity", "0-2 byte strings, 0-1 sibling proofs per tree proof", "roundtrip", cap=(1800, 3600))
+    missing = ["value"] if tier == "quick" else ["epoch", "value", "version", "existence_vrf", "existence_proof", "marker_vrf", "marker_proof", "freshness_vrf", "freshness_proof", "nonce"]
+    for m in missing:
+        add("lookup_missing_" + m, "a LookupProof message with the field removed is rejected", "one required field absent", "decode_any", cap=(1800, 3600))
+    return obs
+
+
 KERNEL_ONLY = "kernel-level claim: the named pure functions are decided for all inputs; the async code that calls them " \
               "(StorageManager, Directory, Azks, caches, schedules, crash points) is outside the claim"
 
 PROPERTIES = {
+    "C19": {"obligations": c19_obligations, "jobs": 12, "assumptions": ["struct level: the byte-level wire codec of the third-party protobuf crate (write_to_bytes / parse_from_bytes) is not encoded"],
+            "outside_claim": ["arbitrary / truncated / bit-flipped BYTES (the protobuf crate's parser)", "HistoryProof / AppendOnlyProof vectors (element conversions are covered, the collecting loops are not)",
+                              "AuditBlobName string parsing, the wasm client", "'verifying the decoded proof gives the same result' follows from identity of the decoded value"]},
     "C06": {"obligations": c06_obligations, "jobs": 10, "assumptions": [IDEAL_HASH, ORACLE, IDEAL_VRF, MEMOFF],
             "outside_claim": ["values/nonces longer than 2 bytes, more than 3 versions, epochs > 7", "the real ECVRF and blake3", "dishonest trees (C08)"]},
     "C07": {"obligations": c07_obligations, "jobs": 8, "assumptions": [IDEAL_HASH, ORACLE, IDEAL_VRF, MEMOFF],
@@ -357,7 +429,8 @@ PROPERTIES = {
         "obligations": c17_obligations,
         "jobs": 8,
         "assumptions": ["Kani models the dev profile (overflow checks on)"],
-        "outside_claim": ["lengths > 256 (except Ord)", "symbolic-length prefix/LCP beyond the stated bit widths"],
+        "outside_claim": ["lengths > 256 (except Ord)", "symbolic-length prefix/LCP beyond the stated bit widths",
+                          "partition of the UNSORTED representation with more than one element (conditional pushes: CBMC out of memory)", "sets of more than 3 elements / labels wider than 8 bits"],
     },
     "C05": {
         "obligations": c05_obligations,
